@@ -53,6 +53,8 @@ def jobs(tier):
             js.append({"id": f"O5.sum.{kn}", "func": "VerifH_C08_Sum", "conf": {"kind": kind, "class": 2}, "_obligation": "O5", "_covers": ["summed"], "reset_mode": True})
             continue
         js.append({"id": f"O5.sum.{kn}", "func": "VerifH_C08_Sum", "conf": {"kind": kind, "class": 0}, "_obligation": "O5", "_covers": ["summed"], "reset_mode": True})
+    js.append({"id": "O5.sum.child-int.above-2p53", "func": "VerifH_C08_Sum", "conf": {"kind": 0, "class": 1}, "_obligation": "O5", "_covers": ["summed"], "reset_mode": True,
+               "_expect": "known:C08-sum-int-above-2p53", "_known_labels": ["integer-sum-is-the-arithmetic-sum"]})
     js.append({"id": "twin", "func": "VerifH_C08_Reach", "conf": {}, "_obligation": "vacuity", "_expect": "twin", "_covers": ["end"]})
     return js
 
@@ -65,6 +67,6 @@ PROPERTY = {
     "assumptions": ["values of one field share one kind (schema typing)", "no NaN (cannot enter through JSON/GraphQL)",
                     "limit/offset < 2^31 (non-negative GraphQL Int)",
                     "mixed int/float comparisons are specified as carried out in float64, mixed equality as exact"],
-    "outside_claim": ["min / max (math/big), average, grouping; integer sums whose values exceed 2^53 (sumNode accumulates in a float64: the class of known finding C18-int-above-2p53)", "sum/average (fp.add chains time out in all solvers), min/max (math/big), countNode (reflect), group, _like family, array/JSON operators",
+    "outside_claim": ["min / max (math/big), average, grouping; integer sums beyond the window explored for known finding C08-sum-int-above-2p53 (one value in [2^53, 2^53+255])", "sum/average (fp.add chains time out in all solvers), min/max (math/big), countNode (reflect), group, _like family, array/JSON operators",
                       "GraphQL parser, mapper and ExecRequest as a whole (the no-request-panics clause)", "commits plan node"],
 }
